@@ -779,6 +779,10 @@ func (g *c06Gen) opFiletreeSetup(u int) {
 		vids, vks := g.ftViewerIDs(e, who)
 		dup := c06Sha(fmt.Sprintf("dup-%d", u))
 		vp := [][2]string{{"short", "k"}, {"x", "k2"}, {c06Sha("nokey-a"), ""}, {c06Sha("nokey-b"), ""}, {dup, "lower"}, {strings.ToUpper(dup), "upper"}}
+		for i := 0; i < 24; i++ { // many ids that differ from a neighbour only in letter case or in a blank around them, each with its own key
+			d := c06Sha(fmt.Sprintf("dup-%d-%d", u, i))
+			vp = append(vp, [2]string{d, fmt.Sprint("lower", i)}, [2]string{strings.ToUpper(d), fmt.Sprint("upper", i)}, [2]string{" " + d, fmt.Sprint("blank", i)})
+		}
 		for i := range vids {
 			vp = append(vp, [2]string{vids[i], vks[i]})
 		}
@@ -1628,6 +1632,9 @@ func runC06(r *RunCtx) error {
 			r.Finding("C06/divergence/"+what, "two executions of the same history of blocks and signed transactions differ: "+what+" at height "+fmt.Sprint(height)+" ("+pair.name+")", rep)
 		}
 	}
+	if err := c06RestartTwin(r); err != nil {
+		return err
+	}
 	// the inventory must list the paths this run exercised
 	if totalPays > 0 {
 		r.Case("paths", "Inventory MapKeysThenSort", map[string]interface{}{"kind": "inventory", "class": "MapKeysThenSort", "exercised": totalPays})
@@ -1642,6 +1649,64 @@ func runC06(r *RunCtx) error {
 	r.Sum.Notes = append(r.Sum.Notes, fmt.Sprintf("histories=%d reward payouts with >=2 recipients=%d ACL marshallings=%d attestation forms=%d challenge draws=%d", nHist, totalPays, totalAcls, totalForms, totalChall))
 	if totalPays == 0 || totalAcls == 0 || totalChall == 0 {
 		return fmt.Errorf("generator did not reach the order-sensitive paths (payouts=%d acls=%d challenges=%d)", totalPays, totalAcls, totalChall)
+	}
+	return nil
+}
+
+// c06RestartTwin: a chain is also brought up from the export of a halted chain.  Every node runs InitChain for
+// itself, at its own moment: two instances that import the same exported genesis (initial height above 1, a
+// genesis time in the past) a little apart in wall-clock time hold byte-identical module stores.
+func c06RestartTwin(r *RunCtx) error {
+	e, err := persistedPopulate()
+	if err != nil {
+		return err
+	}
+	defer e.Close()
+	for _, m := range c19Modules() {
+		var gen []byte
+		if pn := Guard(func() { gen = m.Export(e) }); pn != "" {
+			continue // C19's business
+		}
+		var dumps [2][]c19KV
+		ok := true
+		for i := 0; i < 2 && ok; i++ {
+			nxt, err := NewEnv()
+			if err != nil {
+				return err
+			}
+			nxt.NoGhost = true
+			nxt.At(e.Height+1, T0)
+			for _, kv := range mustDump(nxt, m.StoreKey) {
+				nxt.Ctx.KVStore(c19StoreKey(nxt, m.StoreKey)).Delete(kv.K)
+			}
+			var ierr error
+			if pn := Guard(func() { ierr = m.Import(nxt, gen) }); pn != "" || ierr != nil {
+				ok = false
+			}
+			dumps[i] = mustDump(nxt, m.StoreKey)
+			nxt.Close()
+			time.Sleep(15 * time.Millisecond)
+		}
+		if !ok {
+			continue
+		}
+		r.Count("restart-twin:"+m.Name, len(dumps[0]) > 0)
+		r.Hist("restart-twin", m.Name)
+		diff := ""
+		if len(dumps[0]) != len(dumps[1]) {
+			diff = fmt.Sprintf("%d and %d records", len(dumps[0]), len(dumps[1]))
+		} else {
+			for i := range dumps[0] {
+				if !bytes.Equal(dumps[0][i].K, dumps[1][i].K) || !bytes.Equal(dumps[0][i].V, dumps[1][i].V) {
+					diff = fmt.Sprintf("record %q", string(dumps[0][i].K))
+					break
+				}
+			}
+		}
+		if diff != "" {
+			r.Finding("C06/divergence/restart-from-exported-genesis", "two instances that import the same exported "+m.Name+" genesis (initial height "+fmt.Sprint(e.Height+1)+", genesis time in the past) 15 ms apart hold different stores: "+diff,
+				map[string]interface{}{"module": m.Name, "first_divergence": diff, "history": "the busy history of the C19 check, ExportGenesis, then InitGenesis on two fresh instances", "initial_height": e.Height + 1})
+		}
 	}
 	return nil
 }
